@@ -79,10 +79,32 @@ func (e *Engine) findPackage(from *types.Package, name string) *types.Package {
 		if from.Name() == name {
 			return from
 		}
+		// import aliases used in the package's own files (e.g. aliyunClient "…/pkg/aliyun/client")
+		if pk, ok := e.prog.All[from.Path()]; ok {
+			for _, f := range pk.Syntax {
+				for _, is := range f.Imports {
+					if is.Name != nil && is.Name.Name == name {
+						path := strings.Trim(is.Path.Value, "\"")
+						if p := e.pkgByPath(path); p != nil {
+							return p
+						}
+					}
+				}
+			}
+		}
+		var cands []*types.Package
 		for _, imp := range from.Imports() {
 			if imp.Name() == name {
-				return imp
+				cands = append(cands, imp)
 			}
+		}
+		for _, c := range cands {
+			if strings.HasPrefix(c.Path(), repoModule) {
+				return c
+			}
+		}
+		if len(cands) > 0 {
+			return cands[0]
 		}
 	}
 	// fall back: unique package of that name in the program, preferring repo packages
@@ -427,7 +449,7 @@ func (e *Engine) verifyFunction(fn *ssa.Function, spec *FuncSpec, props []string
 func (e *Engine) verifyFunctionCase(fn *ssa.Function, spec *FuncSpec, props []string, caseIdx int) *FuncResult {
 	res := &FuncResult{Fn: fn, Key: funcKey(fn), Spec: spec}
 	if spec == nil {
-		spec = &FuncSpec{Key: funcKey(fn), LoopInv: map[int][]*Clause{}, Unroll: map[int]int{}, LoopMod: map[int][]string{}}
+		spec = &FuncSpec{Key: funcKey(fn), LoopInv: map[int][]*Clause{}, LoopUse: map[int][]*Clause{}, Unroll: map[int]int{}, LoopMod: map[int][]string{}}
 		if fn.Pkg != nil {
 			spec.Pkg = fn.Pkg.Pkg.Path()
 		}
